@@ -9,7 +9,8 @@ import re
 from lib.common import COQ, REPO, enc_str, model_run, src_hashes, write_if_changed
 
 PID = "C20"
-RULE = ("gen: ast table of every nodes.raw(...) construction site, the position of the file_insertion_enabled test in "
+RULE = ("gen: source translation (Gen/RawSrc.v: the raw_enabled block of Parser.parse and the head of MockIncludeDirective.run, "
+        "statement by statement, proved equal to the model: C20_src_is_model) + ast table of every nodes.raw(...) construction site, the position of the file_insertion_enabled test in "
         "MockIncludeDirective.run and the shape/position of the raw_enabled loop in Parser.parse (-> coq/Gen/RawSites.v, "
         "theorems re-checked against it); correspondence: the extracted loop model vs the real loop of Parser.parse run on "
         "generated docutils trees (raw nodes of several formats at any depth, also nested), the include prefix model vs "
@@ -21,6 +22,9 @@ RULE = ("gen: ast table of every nodes.raw(...) construction site, the position 
 TRUSTED = ["coq/Nest/Raw.v is a hand transcription of the raw_enabled loop of Parser.parse and of the prefix of "
            "MockIncludeDirective.run; gen/c20_rawsites.py recognises how a nodes.raw(...) site reaches the tree "
            "(self.current_node.append in a render method; default_html -> html_to_nodes -> render_html_block)",
+           "gen/c20_src.py + gen/c06_walk.py: the statement mapping (RULES tables) from the raw_enabled block of Parser.parse and "
+           "the head of MockIncludeDirective.run to Gallina over Nest/Raw.v (traverse_raw, parent_replace, fs trace events); "
+           "one-line assignments without a file-system call are skipped as bookkeeping",
            "in-process recording of builtins.open / io.open / pathlib.Path.read_text,read_bytes,open / docutils.io.FileInput",
            "docutils html5 writer (the written output that is searched for sentinel markup)"]
 ORACLES = {
@@ -40,6 +44,11 @@ def gen(ctx):
     text, info = c20_rawsites.generate(REPO)
     write_if_changed(COQ / "Gen" / "RawSites.v", text)
     ctx.gen_info["RawSites.v"] = info["sha"]
+    from gen import c20_src
+    import hashlib
+    src = c20_src.generate(REPO)       # raises Untranslatable on any statement outside the mapping
+    write_if_changed(COQ / "Gen" / "RawSrc.v", src)
+    ctx.gen_info["RawSrc.v"] = hashlib.sha256(src.encode()).hexdigest()[:16]
     ctx.gen_info["raw_sites"] = [f"{s['file']}:{s['func']}:{s['format']}:{s['sink']}" for s in info["sites"]]
     ctx.gen_info["include"] = info["include"]
     ctx.gen_info["loop"] = info["loop"]
